@@ -291,6 +291,18 @@ func (fr *Frame) execUnOp(x *ssa.UnOp, st *State, r string) {
 		fr.bindReg(x, v)
 		fr.assumeTypeFacts(r, x.Type(), fr.regs[x], st)
 		fr.notePointer(r, fr.regs[x], x.Type())
+		// a slice/pointer loaded from a field of a struct S does not point into the allocation holding that S,
+		// unless S itself has a component such a reference could point at (an array or a field of the element type)
+		if fa, ok := x.X.(*ssa.FieldAddr); ok && len(p) == 2 {
+			if et, isRef := refElem(x.Type()); isRef {
+				if pt, ok := types.Unalias(fa.X.Type()).Underlying().(*types.Pointer); ok {
+					if stt, ok := pt.Elem().Underlying().(*types.Struct); ok && !hasInterior(stt, et, 0) && len(fr.regs[x]) >= 1 {
+						vc.assert(sImp(r, sOr(sEq(fr.regs[x][0], "0"), sNot(sEq(fr.regs[x][0], p[0])))))
+						vc.assumptions["a reference loaded from a struct field does not point into the allocation of that struct when the struct has no component of the referenced type (Go type safety; enclosing objects of other types are not considered)"] = true
+					}
+				}
+			}
+		}
 		if g, ok := x.X.(*ssa.Global); ok && fr.eng.initNonNil(g) {
 			vc.assert(sNot(sEq(fr.regs[x][0], "0")))
 		}
@@ -700,4 +712,26 @@ func (fr *Frame) execMapUpdate(x *ssa.MapUpdate, st *State, r string) {
 	m := fr.val(x.Map)
 	fr.safetyObl("nilmap", r, sNot(sEq(m[0], "0")), x.Pos(), "assignment to entry in nil map")
 	fr.vc.unmodelled["map update in "+fr.fn.String()+" (map contents not modelled)"] = true
+}
+
+// hasInterior: could a reference to elements of type et point inside a value of struct type st?
+func hasInterior(st *types.Struct, et types.Type, depth int) bool {
+	if depth > 5 {
+		return true
+	}
+	for i := 0; i < st.NumFields(); i++ {
+		ft := st.Field(i).Type()
+		if types.Identical(ft, et) {
+			return true
+		}
+		switch u := ft.Underlying().(type) {
+		case *types.Array:
+			return true
+		case *types.Struct:
+			if hasInterior(u, et, depth+1) {
+				return true
+			}
+		}
+	}
+	return false
 }
